@@ -68,6 +68,15 @@ type TStruct struct {
 	RawFields []string
 }
 
+func (s *TStruct) ByName(n string) *TField {
+	for _, f := range s.Fields {
+		if f.Name == n {
+			return f
+		}
+	}
+	return nil
+}
+
 func (s *TStruct) ByID(id int) *TField {
 	for _, f := range s.Fields {
 		if f.ID == id {
@@ -178,6 +187,9 @@ type tgenOpts struct {
 	// ConstDefaults: some defaults are spelled through identifiers - a constant, a constant defined by another
 	// constant, an enum value, each either in the main file or in an included one
 	ConstDefaults bool
+	// SharedNames: field names are drawn from a small pool, so that different structs declare the same name
+	// under different ids
+	SharedNames bool
 	// ForceSelf: the root struct gets an optional field of its own type (deep nesting worlds)
 	ForceSelf bool
 	// QueryAnno: some scalar / string fields carry (api.query = "q_<name>") - only meaningful for
@@ -361,6 +373,12 @@ func (g *tgen) newStruct(depth int) *TStruct {
 			nextID = id + 1
 		}
 		f := &TField{ID: id, Name: g.ident("f")}
+		if g.o.SharedNames && g.t.Chance(1, 2, "field.sharedname") {
+			n := fmt.Sprintf("shared%d", g.t.Intn(5, "field.sharedname.which"))
+			if st.ByName(n) == nil {
+				f.Name = n
+			}
+		}
 		f.T = g.anyType(depth, st)
 		if g.o.Requiredness {
 			f.Req = g.t.Intn(3, "field.req")
